@@ -17,6 +17,10 @@ pub enum Pred {
     Panics,
 }
 
+pub fn nt_pub(cfg: &Cfg) -> usize {
+    cfg.suite.aead.rfc_sizes().2
+}
+
 fn nt_of(cfg: &Cfg) -> usize {
     cfg.suite.aead.rfc_sizes().2
 }
@@ -233,6 +237,18 @@ impl World {
     }
 
     // ------------------------------------------------------------------------------ deliver
+
+    pub fn resolve_rec_pub(&self, r: usize, from: usize, rr: RecRef) -> Option<usize> {
+        self.resolve_rec(r, from, rr)
+    }
+
+    /// `present` without per-call coverage bookkeeping (bulk use)
+    pub fn present_quiet(&mut self, r: usize, bytes: &[u8], aad: &[u8], api: OpenApi, cov: &mut Cov) -> V {
+        let mut scratch = Cov::new();
+        let res = self.present(r, bytes, aad, None, api, "burst", &mut scratch);
+        cov.ops += scratch.ops;
+        res
+    }
 
     fn resolve_rec(&self, r: usize, from: usize, rr: RecRef) -> Option<usize> {
         let rc = self.rcs.get(r)?.as_ref()?;
@@ -761,6 +777,44 @@ impl World {
         Ok(())
     }
 
+    /// Soak: n rejected deliveries in a row (bugs that count failures in a narrow integer)
+    pub fn ev_reject_burst(&mut self, r: usize, from: usize, n: u32, cov: &mut Cov) -> V {
+        let (base, aad, nt) = {
+            let rc = match self.rcs.get(r).and_then(|x| x.as_ref()) {
+                Some(x) => x,
+                None => return Ok(()),
+            };
+            if rc.real.is_none() || rc.m_over || !rc.cfg.suite.aead.seals() {
+                return Ok(());
+            }
+            let nt = super::world_ops::nt_pub(&rc.cfg);
+            match self.resolve_rec_pub(r, from, RecRef::Next) {
+                Some(i) => (self.recs[i].ct.clone(), self.recs[i].aad.clone(), nt),
+                None => (vec![0u8; 40], vec![], nt),
+            }
+        };
+        let _ = nt;
+        for i in 0..n {
+            let mut bytes = base.clone();
+            if bytes.is_empty() {
+                bytes.push(0);
+            }
+            // a different single-byte corruption each time
+            let pos = (i as usize) % bytes.len();
+            bytes[pos] ^= 1 + ((i / bytes.len() as u32) % 255) as u8;
+            let api = if i % 2 == 0 { OpenApi::Alloc } else { OpenApi::InPlace };
+            if bytes == base {
+                continue;
+            }
+            if i % 4096 == 0 {
+                cov.hit("fault.reject_burst_4096");
+            }
+            self.present_quiet(r, &bytes, &aad, api, cov)?;
+        }
+        cov.sig_event("RejectBurst", &format!("{}", n));
+        Ok(())
+    }
+
     /// Content-dependent adversary (sees the ciphertexts): strips trailing zero bytes
     pub fn ev_strip_zeros(&mut self, r: usize, from: usize, cov: &mut Cov) -> V {
         let cands: Vec<(u64, Vec<u8>, Vec<u8>)> = {
@@ -1028,6 +1082,27 @@ impl World {
             if scan.survived(i) {
                 return Err(self.viol(&format!("drop.{}-still-in-memory", names[i]), format!("{} no longer present in the {}-byte slot of the dropped {:?} context", names[i], scan.size, role), "still present after drop".into()));
             }
+        }
+        Ok(())
+    }
+
+    pub fn ev_teardown_unwinding(&mut self, c: usize, role: Role, cov: &mut Cov) -> V {
+        let before = ledger_all();
+        match role {
+            Role::S => match self.scs.get_mut(c).and_then(|x| x.take()).and_then(|s| s.real) {
+                Some(real) => real.drop_unwinding(),
+                None => return Ok(()),
+            },
+            Role::R => match self.rcs.get_mut(c).and_then(|x| x.take()).and_then(|s| s.real) {
+                Some(real) => real.drop_unwinding(),
+                None => return Ok(()),
+            },
+        }
+        cov.ops += 1;
+        cov.hit("fault.drop_during_unwind");
+        cov.sig_event("TeardownUnwinding", &format!("{:?}", role));
+        if self.p == P::C16 {
+            self.check_teardown_ledger(&before, "context while its thread unwinds from a panic")?;
         }
         Ok(())
     }
